@@ -76,6 +76,12 @@ def install_futures(ex):
             return poll_value(e, target)
         return NotImplemented
     ex.model(r'<.* as std::future::Future>::poll', m_poll)
+
+    def m_poll_unresolved(e, n, a):
+        # the callee could not be resolved statically (e.g. a future type that mentions an unnameable closure): dispatch on the value
+        target = unpin(a[0])
+        return poll_value(e, target if isinstance(target, Ref) else Ref(Cell(target)))
+    ex.model(r'std::future::Future::poll', m_poll_unresolved)
     ex.model(r'.*::\{closure#\d+\}', lambda e, n, a: m_poll(e, n, a) if (len(a) == 2 and isinstance(a[0], Agg) and a[0].name == 'Pin') else NotImplemented)
     ex.model(r'std::pin::Pin::<.*>::(new_unchecked|new)', lambda e, n, a: pin(a[0]))
     ex.model(r'std::pin::Pin::<.*>::(as_mut|as_ref)', lambda e, n, a: pin(unpin(a[0].get() if isinstance(a[0], Ref) else a[0])))
